@@ -315,6 +315,9 @@ class SimplicialComplex(Hypergraph):
             warn(f"uid {idx} already exists, cannot add simplex {members}")
             return
 
+        if not members:  # empty simplices cannot be added
+            return
+
         idx = next(self._edge_uid) if not idx else idx
 
         self._add_simplex(members, idx, **attr)
